@@ -143,11 +143,11 @@ def mutated_op(rng, base):
     return op
 
 
-KF_BUDGET = {"empty_path": 18, "missing_epoch_colon_elsewhere": 18}
+KF_BUDGET = {"missing_epoch_colon_elsewhere": 18}
 
 
 def reset_budget():
-    KF_BUDGET.update({"empty_path": 18, "missing_epoch_colon_elsewhere": 18})
+    KF_BUDGET.update({"missing_epoch_colon_elsewhere": 18})
 
 
 def gen_ops(rng, tier, n=None, valid_only=False):
@@ -179,10 +179,10 @@ def gen_ops(rng, tier, n=None, valid_only=False):
             if r2 < 0.22:
                 kind = INVALID_KINDS[rng.randrange(len(INVALID_KINDS))]
                 if kind in KF_BUDGET:
-                    # inputs that meet the two known findings: a bounded number per run (the pipeline stops consuming
+                    # inputs that meet the known finding F31: a bounded number per run (the pipeline stops consuming
                     # cases after 50 recorded failures, known or not)
                     if rng.random() < 0.9 or KF_BUDGET[kind] <= 0:
-                        kind = "abs_path" if kind == "empty_path" else "missing_epoch"
+                        kind = "missing_epoch"
                     else:
                         KF_BUDGET[kind] -= 1
                 op = invalid_op(rng, op, kind)
